@@ -9,6 +9,7 @@ MODULES = {
     "C18": "harness.c18_rainbow",
     "C08": "harness.c08_bellman",
     "C06": "harness.c06_hpmut",
+    "C05": "harness.c05_tournament",
 }
 
 TECH = "symbolic execution of the real Python functions on z3-backed proxies (re-execution path exploration); each obligation decided per path by z3 as pc ∧ assumptions ∧ ¬obligation; sat models replayed on the real code"
@@ -33,6 +34,11 @@ CLAIMED = {
     "C18": {
         "level_text": "bounded symbolic verification of the real RainbowDQN._dqn_loss and learn on a real agent with stub networks: for all rewards (inside, outside and exactly on atoms), done flags, gamma in [0,1], actions taken, online q-values (ties included), target probabilities >= 0 and online log-probabilities at atoms<=5(9), batch<=2, actions<=2(3), symmetric and asymmetric supports with exactly representable delta_z: the projection recovered from the returned loss has the mass of the target distribution of a greedy next action and the mean of its clipped Bellman image, is non-negative, the per-sample loss is the cross-entropy with the online log-distribution of the action taken; learn() combines 1-step and n-step (gamma^n) losses, returns loss+prior_eps as priorities, passes indices through and steps optimiser and soft update once",
         "level_note": NOTE + "; support grids are chosen with exactly representable delta_z (float rounding of b=(Tz-v_min)/delta_z is outside the claim)",
+        "technique": TECH,
+    },
+    "C05": {
+        "level_text": "bounded symbolic verification of the real TournamentSelection.select/_elitism/_tournament on record agents whose clone() returns a tagged child: for all fitness histories (ties, negative, unequal length, shorter than the window), all randint draws and (small cases) all distinct agent indices, at population<=3(4), tournament size<=3, window<=3, new population<=3: the elite is a copy of a member with maximal mean of its last eval_loop scores, the new population has the configured size with the elite first under elitism, every other member's parent was drawn for its tournament and has a mean >= every drawn agent's, child indices are fresh (> every old index), pairwise distinct and distinct from the elite's, and the old population, its fitness lists and indices are untouched (index distinctness is re-established: induction over generations)",
+        "level_note": NOTE + "; faithfulness and independence of the real clone() are C01 (not applicable)",
         "technique": TECH,
     },
     "C06": {
@@ -61,4 +67,4 @@ NOT_APPLICABLE = {
 
 # designed in DESIGN.md §5 but the check is not built/registered yet (moves to CLAIMED when it lands)
 PENDING = {pid: "solver-based check designed (DESIGN.md §5) but not yet built in this tree; not claimed until it is"
-           for pid in ["C03", "C04", "C05", "C12", "C13", "C14", "C15", "C16", "C19"]}
+           for pid in ["C03", "C04", "C12", "C13", "C14", "C15", "C16", "C19"]}
